@@ -391,7 +391,7 @@ class Engine:
             same = None
             if other == Const(None):
                 same = True
-            elif is_num(other) or is_str(other) or isinstance(other, (Tup, Param)) or (isinstance(other, Opaque) and other.name == "field"):
+            elif is_num(other) or is_str(other) or isinstance(other, (Tup, Param)) or (isinstance(other, Opaque) and other.name in ("field", "misread")):
                 same = False
             if same is not None:
                 return [(same == isinstance(op, (ast.Is, ast.Eq)), st)]
